@@ -11,8 +11,9 @@ import (
 
 func init() {
 	register(&propCheck{
-		ID:    "C03",
-		Run:   runC03,
+		ID:      "C03",
+		Run:     runC03,
+		NeedSSA: true,
 		Level: "Static analysis (write records of every encoder, from the abstract interpreter, against hand-transcribed layout tables of the specifications). Decides, for every encodable kind of the OpenFlow packages (all have a table in spec/layout.json): layout/<kind>/<field> — a write record exists at the specified offset (a size term: constant, or symbolic after variable parts), with the specified width, big-endian, under the specified presence guard, whose source is the Go field the table maps to that wire field (child encodings and list elements in order likewise); extra/<kind> — the encoder writes nothing the table does not list; presence/<setter> — each setter of an optional part of the NAT action sets the part's specified presence bit, and the encoder writes the parts in the specified order under 'part set' guards (rows of the table); lanes/<packed group> — the learn-spec header packs source kind, destination kind and bit count into the specified bits (bit-lane interpretation, every path); the OXM header lanes are C15's rule. List order: elements are written by a forward range over the slice (the only loop form the interpreter accepts in an encoder), and adders append at the tail (declen rule of C02). Together: every value put into a message through the API appears at the offset, width and byte order the specifications assign — for every value, since records are symbolic. Not decided: computed values (none here), semantic choices such as OFPVID_PRESENT, kinds the table marks as deviating (known findings).",
 		Assumptions: []string{
 			"spec/layout.json and spec/codes.json transcribe the cited specifications (hand-transcribed, reviewed per kind)",
@@ -117,6 +118,26 @@ func runC03(w *World, r *Report) {
 	r.Rule("lanes", "packed header words carry their sub-fields at the specified bits", 1)
 	r.Rule("union", "setters of alternative readings of one wire slot assign every field of the slot group", 2)
 	unionRule(w, r)
+	// rules shared with other properties that are also necessary conditions of this one: a stored length is a
+	// specified field whose value must be right (declen, oxmlen); list elements appear in the order they were
+	// added (order); a field obtained by name is the caller's own object, not a registry entry another message
+	// also holds (fresh)
+	r.Rule("declen", "stored length fields equal the size of what the element contains, for every constructor and builder", 13)
+	declenRule(w, r)
+	r.Rule("oxmlen", "constructors and editors of match fields leave oxm_length equal to the payload bytes", 40)
+	oxmLenRule(w, r)
+	r.Rule("order", "builders only extend the lists the encoder walks; they never reassign elements in place", 7)
+	orderRule(w, r)
+	r.Rule("fresh", "a match-field header looked up by name is an object of its own", 1)
+	{
+		r2 := NewReport(r.Prop, r.Tier)
+		runC15(w, r2)
+		for _, o := range r2.Obs {
+			if o.Rule == "fresh" {
+				r.Add(o)
+			}
+		}
+	}
 	layouts, err := loadLayouts()
 	if err != nil {
 		r.Fail(VUnmapped, "layout", "spec/layout.json", "", "-", err.Error())
